@@ -26,6 +26,6 @@ def run(ctx):
               "or assigned to).  Monitors: ASan (use-after-free, double free, overflow), LeakSanitizer (recoverable check per batch and at exit), "
               "UBSan, in assertion-enabled and NDEBUG builds.  non-trivial: history with >= 1 ownership operation after >= 1 write; distinct = "
               "hash of the operation sequence") % L,
-        assumptions=["self-move-assignment leaves the field valid-but-unspecified: the model treats it as moved-from rather than demanding preservation",
+        assumptions=["self-assignment (copy and move) must leave the field unchanged, as the property lists it among the operations of a history",
                      "moved-from fields are never viewed"],
         exhaustive=True, extra_coverage={"exhaustive_scope": "all enabled histories of length <= %d over the 32-letter alphabet for four type pairs" % L})
